@@ -105,6 +105,7 @@ def main(argv=None):
     # ---------------- aggregate
     evaluations = 0
     hashes = set()
+    partitioned_distinct = 0   # cases owned by exactly one shard (hash-partitioned enumerations): counts add up
     monitors = collections.Counter()
     observed = collections.defaultdict(collections.Counter)
     samples = []
@@ -126,6 +127,7 @@ def main(argv=None):
         if summary:
             evaluations += summary["evaluations"]
             hashes.update(summary["hashes"])
+            partitioned_distinct += summary.get("partitioned_distinct", 0)
             monitors.update(summary["monitors"])
             for k, v in summary["observed"].items():
                 observed[k].update(v)
@@ -199,14 +201,14 @@ def main(argv=None):
         for m in deciding:
             if monitors.get(m, 0) == 0:
                 problems.append(f"deciding monitor {m} recorded zero evaluations")
-        if len(hashes) < 2:
-            problems.append(f"only {len(hashes)} distinct non-trivial case(s) were executed")
+        if len(hashes) + partitioned_distinct < 2:
+            problems.append(f"only {len(hashes) + partitioned_distinct} distinct non-trivial case(s) were executed")
 
     wall = time.time() - t0
     if not args.replay:
         coverage = {
             "evaluations": evaluations,
-            "distinct_nontrivial": len(hashes),
+            "distinct_nontrivial": len(hashes) + partitioned_distinct,
             "rule": getattr(mod, "RULE", ""),
             "samples": samples or [{"note": "no sample recorded"}],
             "monitor_evaluations": dict(monitors),
@@ -240,7 +242,7 @@ def main(argv=None):
         print(f"VIOLATION property={prop} replay={rpath}")
         print(f"  key={key} monitor={rec.get('monitor')} occurrences={fail_counts.get(key, 1)}")
         print(f"  detail={json.dumps(rec.get('detail'))[:700]}")
-    print(f"[{prop} {tier} seed={seed}] evaluations={evaluations} distinct={len(hashes)} "
+    print(f"[{prop} {tier} seed={seed}] evaluations={evaluations} distinct={len(hashes) + partitioned_distinct} "
           f"monitors={dict(monitors)} wall={wall:.1f}s")
     keep = args.keep or bool(problems) or bool(vio_lines)
     if not keep:
